@@ -500,13 +500,15 @@ def Alloc.deviceOf (a : Alloc) (paddr : Nat) : Option Nat :=
     | none => false
 
 /-- `allocatePageWithGivenVAddr` -/
-def Alloc.allocGiven (a : Alloc) (pid dev vaddr : Nat) (unified : Bool) : Except String (Page × Alloc) := do
-  let (pa, a1) ← a.pop dev
-  let pg : Page := ⟨pid, vaddr, pa, dev, unified, false⟩
-  let a2 := { a1 with mirror := (vaddr, pg) :: a1.mirror.filter (fun e => e.1 != vaddr) }
-  match a2.update pg with
-  | none => .error "nopage"
-  | some a3 => .ok (pg, a3)
+def Alloc.allocGiven (a : Alloc) (pid dev vaddr : Nat) (unified : Bool) : Except String (Page × Alloc) :=
+  match a.pop dev with
+  | .error e => .error e
+  | .ok (pa, a1) =>
+    let pg : Page := ⟨pid, vaddr, pa, dev, unified, false⟩
+    let a2 := { a1 with mirror := (vaddr, pg) :: a1.mirror.filter (fun e => e.1 != vaddr) }
+    match a2.update pg with
+    | none => .error "nopage"
+    | some a3 => .ok (pg, a3)
 
 /-- `Driver.preparePageForMigration(vAddr, context, gpuID)`; returns the new page and the old
     physical address -/
@@ -514,12 +516,14 @@ def prepare (a : Alloc) (pid vaddr gpu : Nat) : Except String (Page × Nat × Al
   let aligned := (vaddr >>> a.lg) <<< a.lg
   match a.find pid aligned with
   | none => .error "notfound"
-  | some old => do
-    let (pg, a1) ← a.allocGiven pid (gpu + 1) vaddr true
-    let pg' := { pg with dev := gpu + 1, migrating := true }
-    match a1.update pg' with
-    | none => .error "nopage"
-    | some a2 => .ok (pg', old.paddr, a2)
+  | some old =>
+    match a.allocGiven pid (gpu + 1) vaddr true with
+    | .error e => .error e
+    | .ok (pg, a1) =>
+      let pg' := { pg with dev := gpu + 1, migrating := true }
+      match a1.update pg' with
+      | none => .error "nopage"
+      | some a2 => .ok (pg', old.paddr, a2)
 
 /-- `allocatePages` for one page after another (`Allocate(pid, bytes, dev)`) -/
 def Alloc.allocate (a : Alloc) (pid dev : Nat) : Nat → Except String Alloc
